@@ -14,10 +14,14 @@ Import ListNotations.
 
 (* Cactus<RepairMerge>: a node and its parent chain; Merge carries the alternative chains
    (newest first, as Cactus::vals() yields them) *)
+(* every node carries the identity of its allocation ([id], a counter threaded through the search):
+   Cactus::eq returns true at once on pointer-equal nodes, which is what keeps comparing merged
+   chains (they share most of their structure) affordable; ids are equal only for the same node,
+   so the result is the structural equality *)
 Inductive rtree :=
 | RTerm
-| RRep (r : repair) (parent : rtree)
-| RMrg (r : repair) (alts : list rtree) (parent : rtree).
+| RRep (id : N) (r : repair) (parent : rtree)
+| RMrg (id : N) (r : repair) (alts : list rtree) (parent : rtree).
 
 Definition repair_eqb (a b : repair) : bool :=
   match a, b with
@@ -27,31 +31,32 @@ Definition repair_eqb (a b : repair) : bool :=
   | _, _ => false
   end.
 
-(* PartialEq of Cactus<RepairMerge>: structural *)
+(* PartialEq of Cactus<RepairMerge>: structural, with the RefCnt::ptr_eq shortcut *)
 Fixpoint rtree_eqb (a b : rtree) : bool :=
   match a, b with
   | RTerm, RTerm => true
-  | RRep r pa, RRep s pb => repair_eqb r s && rtree_eqb pa pb
-  | RMrg r al pa, RMrg s bl pb =>
-      repair_eqb r s &&
-      (fix go (x y : list rtree) : bool :=
-         match x, y with
-         | [], [] => true
-         | a1 :: x', b1 :: y' => rtree_eqb a1 b1 && go x' y'
-         | _, _ => false
-         end) al bl &&
-      rtree_eqb pa pb
+  | RRep i r pa, RRep j s pb => N.eqb i j || (repair_eqb r s && rtree_eqb pa pb)
+  | RMrg i r al pa, RMrg j s bl pb =>
+      N.eqb i j ||
+      (repair_eqb r s &&
+       (fix go (x y : list rtree) : bool :=
+          match x, y with
+          | [], [] => true
+          | a1 :: x', b1 :: y' => rtree_eqb a1 b1 && go x' y'
+          | _, _ => false
+          end) al bl &&
+       rtree_eqb pa pb)
   | _, _ => false
   end.
 
 Definition last_repair (t : rtree) : option repair :=
-  match t with RTerm => None | RRep r _ => Some r | RMrg r _ _ => Some r end.
+  match t with RTerm => None | RRep _ r _ => Some r | RMrg _ r _ _ => Some r end.
 
 (* num_shifts in PathFNode::eq *)
 Fixpoint rt_shifts (t : rtree) : nat :=
   match t with
-  | RRep Shf pa => S (rt_shifts pa)
-  | RMrg Shf _ pa => S (rt_shifts pa)
+  | RRep _ Shf pa => S (rt_shifts pa)
+  | RMrg _ Shf _ pa => S (rt_shifts pa)
   | _ => O
   end.
 
@@ -60,8 +65,8 @@ Fixpoint rt_ends (n : nat) (t : rtree) : bool :=
   match n with
   | O => true
   | S n' => match t with
-            | RRep Shf pa => rt_ends n' pa
-            | RMrg Shf _ pa => rt_ends n' pa
+            | RRep _ Shf pa => rt_ends n' pa
+            | RMrg _ Shf _ pa => rt_ends n' pa
             | _ => false
             end
   end.
@@ -70,12 +75,12 @@ Fixpoint rt_ends (n : nat) (t : rtree) : bool :=
 Fixpoint unfold (t : rtree) : list (list repair) :=
   match t with
   | RTerm => []
-  | RRep r pa =>
+  | RRep _ r pa =>
       match unfold pa with
       | [] => [[r]]
       | ps => map (fun pc => pc ++ [r]) ps
       end
-  | RMrg r alts pa =>
+  | RMrg _ r alts pa =>
       (match unfold pa with
        | [] => [[r]]
        | ps => map (fun pc => pc ++ [r]) ps
@@ -99,23 +104,23 @@ Definition key_eqb (a b : node) : bool :=
   Nat.eqb (rt_shifts (n_rep a)) (rt_shifts (n_rep b)).
 
 (* the merge closure *)
-Definition merge_node (old new : node) : node :=
-  if rtree_eqb (n_rep old) (n_rep new) then old else
+Definition merge_node (old new : node) (ctr : N) : node * N :=
+  if rtree_eqb (n_rep old) (n_rep new) then (old, ctr) else
   match n_rep old with
-  | RRep r pa => mkNode (n_stk old) (n_la old) (RMrg r [n_rep new] pa) (n_cf old)
-  | RMrg r v pa => mkNode (n_stk old) (n_la old) (RMrg r (n_rep new :: v) pa) (n_cf old)
-  | RTerm => old                               (* unreachable!() *)
+  | RRep _ r pa => (mkNode (n_stk old) (n_la old) (RMrg ctr r [n_rep new] pa) (n_cf old), (ctr + 1)%N)
+  | RMrg _ r v pa => (mkNode (n_stk old) (n_la old) (RMrg ctr r (n_rep new :: v) pa) (n_cf old), (ctr + 1)%N)
+  | RTerm => (old, ctr)                        (* unreachable!() *)
   end.
 
 (* a bucket: most recently inserted first (IndexMap::pop takes the last) *)
-Fixpoint find_merge (nbr : node) (l : list node) : option (list node) :=
+Fixpoint find_merge (nbr : node) (l : list node) (ctr : N) : option (list node * N) :=
   match l with
   | [] => None
-  | x :: r => if key_eqb x nbr then Some (merge_node x nbr :: r)
-              else match find_merge nbr r with Some r' => Some (x :: r') | None => None end
+  | x :: r => if key_eqb x nbr then (let (m, c') := merge_node x nbr ctr in Some (m :: r, c'))
+              else match find_merge nbr r ctr with Some (r', c') => Some (x :: r', c') | None => None end
   end.
-Definition upsert (nbr : node) (l : list node) : list node :=
-  match find_merge nbr l with Some l' => l' | None => nbr :: l end.
+Definition upsert (nbr : node) (l : list node) (ctr : N) : list node * N :=
+  match find_merge nbr l ctr with Some lc => lc | None => (nbr :: l, ctr) end.
 
 Definition buckets := list (N * list node).
 Definition bget (b : buckets) (c : N) : list node :=
@@ -147,91 +152,97 @@ Definition same_states (a b : vstack) : bool := listN_eqb (map fst a) (map fst b
 Definition add_cost (cf c : N) : outcome N :=
   if (u16max <? cf + c)%N then Panic else Done (cf + c)%N.
 
-Fixpoint nb_insert (n : node) (toks : list N) : outcome (list (N * node)) :=
+(* each neighbour allocates one repair node: [ctr] = the next free identity *)
+Fixpoint nb_insert (n : node) (toks : list N) (ctr : N) : outcome (list (N * node) * N) :=
   match toks with
-  | [] => Done []
+  | [] => Done ([], ctr)
   | t :: ts =>
-      if N.eqb t (eof g) then nb_insert n ts else
+      if N.eqb t (eof g) then nb_insert n ts ctr else
       match lr_cactus1 g A input ifuel (Some t) (n_stk n) (n_la n) with
       | AShift stk' =>
           do cf <- add_cost (n_cf n) (tcost costs t);
-          do rest <- nb_insert n ts;
-          Done ((cf, mkNode stk' (n_la n) (RRep (Ins t) (n_rep n)) cf) :: rest)
+          do rc <- nb_insert n ts (ctr + 1)%N;
+          Done ((cf, mkNode stk' (n_la n) (RRep ctr (Ins t) (n_rep n)) cf) :: fst rc, snd rc)
       | APanic => Panic
       | AFuel => OutOfFuel
-      | _ => nb_insert n ts
+      | _ => nb_insert n ts ctr
       end
   end.
 
-Definition nb_delete (n : node) : outcome (list (N * node)) :=
-  if Nat.eqb (n_la n) (length input) then Done [] else
+Definition nb_delete (n : node) (ctr : N) : outcome (list (N * node) * N) :=
+  if Nat.eqb (n_la n) (length input) then Done ([], ctr) else
   do cf <- add_cost (n_cf n) (tcost costs (la g input (n_la n)));
-  Done [(cf, mkNode (n_stk n) (S (n_la n)) (RRep Del (n_rep n)) cf)].
+  Done ([(cf, mkNode (n_stk n) (S (n_la n)) (RRep ctr Del (n_rep n)) cf)], (ctr + 1)%N).
 
-Definition nb_shift (n : node) : outcome (list (N * node)) :=
+Definition nb_shift (n : node) (ctr : N) : outcome (list (N * node) * N) :=
   match lr_cactus1 g A input ifuel None (n_stk n) (n_la n) with
   | AShift stk' =>
       if fixed || negb (same_states (n_stk n) stk')
-      then Done [(n_cf n, mkNode stk' (S (n_la n)) (RRep Shf (n_rep n)) (n_cf n))]
-      else Done []
+      then Done ([(n_cf n, mkNode stk' (S (n_la n)) (RRep ctr Shf (n_rep n)) (n_cf n))], (ctr + 1)%N)
+      else Done ([], ctr)
   | AAccept stk' | AError stk' =>
       if negb (same_states (n_stk n) stk')
-      then Done [(n_cf n, mkNode stk' (n_la n) (n_rep n) (n_cf n))]
-      else Done []
-  | APast _ => Done []
+      then Done ([(n_cf n, mkNode stk' (n_la n) (n_rep n) (n_cf n))], ctr)
+      else Done ([], ctr)
+  | APast _ => Done ([], ctr)
   | APanic => Panic
   | AFuel => OutOfFuel
   end.
 
-Definition neighbours (explore_all : bool) (n : node) : outcome (list (N * node)) :=
+Definition neighbours (explore_all : bool) (n : node) (ctr : N) : outcome (list (N * node) * N) :=
   do ins <- match last_repair (n_rep n) with
-            | Some Del => Done []
-            | _ => if explore_all then nb_insert n (state_actions (vtop A (n_stk n))) else Done []
+            | Some Del => Done ([], ctr)
+            | _ => if explore_all then nb_insert n (state_actions (vtop A (n_stk n))) ctr else Done ([], ctr)
             end;
-  do del <- (if explore_all then nb_delete n else Done []);
-  do shf <- nb_shift n;
-  Done (ins ++ del ++ shf).
+  do del <- (if explore_all then nb_delete n (snd ins) else Done ([], snd ins));
+  do shf <- nb_shift n (snd del);
+  Done (fst ins ++ fst del ++ fst shf, snd shf).
 
 Definition node_success (n : node) : bool :=
   rt_ends PN (n_rep n) ||
   match action A (vtop A (n_stk n)) (la g input (n_la n)) with Accept => true | _ => false end.
 
 (* the same-cost sweep *)
-Fixpoint phase2 (fuel : nat) (bucket : list node) (c : N) (acc : list node) : outcome (list node) :=
+Fixpoint phase2 (fuel : nat) (bucket : list node) (c : N) (acc : list node) (ctr : N) : outcome (list node) :=
   match fuel with
   | O => OutOfFuel
   | S f =>
       match bucket with
       | [] => Done (rev acc)
       | n :: rest =>
-          if node_success n then phase2 f rest c (n :: acc) else
-          do nbrs <- neighbours false n;
-          phase2 f (fold_left (fun b cn => if N.eqb (fst cn) c then upsert (snd cn) b else b) nbrs rest) c acc
+          if node_success n then phase2 f rest c (n :: acc) ctr else
+          do nbrs <- neighbours false n ctr;
+          let st := fold_left (fun (s : list node * N) cn =>
+                                 if N.eqb (fst cn) c then upsert (snd cn) (fst s) (snd s) else s)
+                              (fst nbrs) (rest, snd nbrs) in
+          phase2 f (fst st) c acc (snd st)
       end
   end.
 
 (* the main loop; [tlen] = todo.len() *)
-Fixpoint phase1 (fuel : nat) (todo : buckets) (tlen : N) (c : N) : outcome (list node) :=
+Fixpoint phase1 (fuel : nat) (todo : buckets) (tlen : N) (c : N) (ctr : N) : outcome (list node) :=
   match fuel with
   | O => OutOfFuel
   | S f =>
       match bget todo c with
       | [] =>
           if (u16max <=? c)%N then Panic else
-          if N.eqb (c + 1) tlen then Done [] else phase1 f todo tlen (c + 1)%N
+          if N.eqb (c + 1) tlen then Done [] else phase1 f todo tlen (c + 1)%N ctr
       | n :: rest =>
           let todo1 := bset todo c rest in
-          if node_success n then phase2 f rest c [n] else
-          do nbrs <- neighbours true n;
-          let st := fold_left (fun (s : buckets * N) cn =>
-                                 (bset (fst s) (fst cn) (upsert (snd cn) (bget (fst s) (fst cn))),
-                                  (snd s + fst cn + 1)%N)) nbrs (todo1, tlen) in
-          phase1 f (fst st) (snd st) c
+          if node_success n then phase2 f rest c [n] ctr else
+          do nbrs <- neighbours true n ctr;
+          let st := fold_left (fun (s : buckets * N * N) cn =>
+                                 let '(td, tl, k) := s in
+                                 let (b', k') := upsert (snd cn) (bget td (fst cn)) k in
+                                 (bset td (fst cn) b', (tl + fst cn + 1)%N, k'))
+                              (fst nbrs) (todo1, tlen, snd nbrs) in
+          phase1 f (fst (fst st)) (snd (fst st)) c (snd st)
       end
   end.
 
 Definition dijkstra (fuel : nat) (stk : vstack) (p : nat) : outcome (list node) :=
-  phase1 fuel [(0%N, [mkNode stk p RTerm 0%N])] 1%N 0%N.
+  phase1 fuel [(0%N, [mkNode stk p RTerm 0%N])] 1%N 0%N 1%N.
 
 (* rank_cnds: rpr_seqs[0] of every candidate is applied (apply_repairs, failures ignored), then
    plain parsing up to in_laidx + TRY_PARSE_AT_MOST; only the furthest survive *)
